@@ -925,7 +925,7 @@ func (vc *VC) callByContract(fr *frame, st *State, ct *Contract, fo *types.Func,
 		out = TupleV(rvals)
 	}
 	for _, en := range ct.Ensures {
-		if en.Label == "local" {
+		if en.Label == "local" || strings.HasPrefix(en.Label, "local-") {
 			// `ensures [local] P`: proved against the body, not exported to callers (keeps the callers'
 			// contexts small when they do not need P; assuming less is sound)
 			continue
